@@ -9,14 +9,18 @@ extra = sys.argv[4:]
 out = f"/verif/seeded/{name}"
 os.makedirs(out, exist_ok=True)
 for f in ("patch.diff", "demo.rs", "notes.md"):
-    if os.path.exists(os.path.join(seed, f)):
+    if os.path.exists(os.path.join(seed, f)) and os.path.abspath(os.path.join(seed, f)) != os.path.abspath(os.path.join(out, f)):
         shutil.copy(os.path.join(seed, f), os.path.join(out, f))
-c = subprocess.run(["/verif/tools/confirm_seed.sh", seed], capture_output=True, text=True)
-confirmed = "RESULT confirmed" in c.stdout
-print(c.stdout[-600:])
+prev = json.load(open(os.path.join(out, "meta.json"))) if os.path.exists(os.path.join(out, "meta.json")) else {}
+if prev.get("confirmed_by_us") and os.environ.get("RECONFIRM") is None:
+    confirmed = True  # confirmed in an earlier run of this script; only the checks are re-run
+else:
+    c = subprocess.run(["/verif/tools/confirm_seed.sh", seed], capture_output=True, text=True)
+    confirmed = "RESULT confirmed" in c.stdout
+    print(c.stdout[-600:])
 results = {}
 if confirmed:
-    t = subprocess.run(["/verif/tools/try_seed.sh", os.path.join(seed, "patch.diff"), pid] + extra, capture_output=True, text=True)
+    t = subprocess.run(["/verif/tools/try_seed.sh", os.path.join(out, "patch.diff"), pid] + extra, capture_output=True, text=True)
     print(t.stdout[-1500:])
     for line in t.stdout.splitlines():
         m = re.match(r"^(C\d+) exit=(\d+)(.*)$", line)
